@@ -14,6 +14,7 @@ libraries leak objects and write unterminated strings, i.e. are not sanitizer
 clean for reasons that have nothing to do with the wrappers.)
 """
 import os
+import re
 import shutil
 import tempfile
 
@@ -164,6 +165,96 @@ def _lib_job(job):
     return out
 
 
+@st.composite
+def own_history(draw, maxlen):
+    """History over three capsule variables; a read only through a pointer that is still valid."""
+    from ..exec import ownptr
+    n = draw(st.integers(2, maxlen))
+    ops = []
+    for _ in range(n):
+        _lines, ptr = ownptr.model(ops)
+        valid = [j for j in (1, 2, 3) if ptr[j] is not None]
+        kinds = [1, 2, 2, 3, 3] + ([4] if valid else [])
+        op = draw(st.sampled_from(kinds))
+        j = draw(st.sampled_from(valid)) if op == 4 else draw(st.sampled_from([1, 1, 2, 3]))
+        ops.append((op, j))
+    return ops
+
+
+def judge_own(ops, rc, out, err):
+    from ..exec import ownptr
+    exp, _p = ownptr.model(ops)
+    if "AddressSanitizer" in err or "LeakSanitizer" in err:
+        m = re.search(r"(?:AddressSanitizer|LeakSanitizer): ([\w-]+)", err)
+        return "own:sanitizer:" + (m.group(1) if m else "report"), err[:1200]
+    if rc != 0:
+        return "own:crash", "driver exit status %s: %s" % (rc, err[-600:])
+
+    def split(lines):
+        k = max([i for i, l in enumerate(lines) if l.startswith("OUT")] or [-1]) + 1
+        return lines[:k], sorted(lines[k:])
+    if split(out) != split(exp):
+        a, b = split(out), split(exp)
+        body_o, body_e = a[0] + a[1], b[0] + b[1]
+        i = next((k for k, (x, y) in enumerate(zip(body_o, body_e)) if x != y), min(len(body_o), len(body_e)))
+        e = body_e[i] if i < len(body_e) else "(nothing)"
+        g = body_o[i] if i < len(body_o) else "(nothing)"
+        return "own:stream:%s:%s" % (e.split()[0], g.split()[0]), "expected %r, observed %r (line %d)" % (e, g, i)
+    return None, ""
+
+
+def _own_job(job):
+    """One ASan build of the owned-pointer library, then all histories."""
+    from ..exec import ownptr
+    histories = job
+    out = dict(n=0, problems=[], nontrivial=[], sample=None)
+    work = tempfile.mkdtemp(prefix="vf06o_", dir=core.scratch_root())
+    try:
+        r = shroud_run.run_yaml(ownptr.YAML, [], workdir=work, name="ownlib")
+        if r.status != "ok":
+            out["problems"].append(("own:shroud", dict(own_ops=None), "Shroud stops on the owned-pointer library: " + r.describe()))
+            return out
+        outd = os.path.join(work, "out")
+        exe, (stage, detail) = ownptr.build(outd, os.listdir(outd))
+        if exe is None:
+            if stage == "harness":
+                raise core.HarnessError(detail)
+            out["problems"].append(("own:" + stage, dict(own_ops=None), detail))
+            return out
+        seen = set()
+        for ops in histories:
+            rc, lines, err = ownptr.run(exe, ops)
+            out["n"] += len(ops)
+            key, note = judge_own(ops, rc, lines, err)
+            if any(o == 3 for o, _j in ops) and any(o in (1, 2) for o, _j in ops):
+                out["nontrivial"].append(("own", tuple(ops)))
+            if out["sample"] is None:
+                out["sample"] = dict(part="owned-pointer", ops=ops, expected=ownptr.model(ops)[0][:8])
+            if key and key not in seen:
+                seen.add(key)
+                # shrink: drop operations while the same key reproduces and reads stay valid
+                best = list(ops)
+                i = 0
+                while i < len(best) and len(best) > 1:
+                    cand = best[:i] + best[i + 1:]
+                    okc = True
+                    for k in range(len(cand)):
+                        if cand[k][0] == 4 and ownptr.model(cand[:k])[1][cand[k][1]] is None:
+                            okc = False
+                    if okc:
+                        rc2, l2, e2 = ownptr.run(exe, cand)
+                        if judge_own(cand, rc2, l2, e2)[0] == key:
+                            best = cand
+                            continue
+                    i += 1
+                rc2, l2, e2 = ownptr.run(exe, best)
+                out["problems"].append((key, dict(own_ops=[list(o) for o in best]),
+                                        "history %s: %s" % (best, judge_own(best, rc2, l2, e2)[1])))
+    finally:
+        shutil.rmtree(work, ignore_errors=True)
+    return out
+
+
 def _up_job(name):
     return upstream.build_and_run(name, "fortran", asan=True)
 
@@ -198,6 +289,17 @@ def run(ctx):
             ctx.case(n=0, sample=out["sample"])
         for key, case, note in out["problems"]:
             ctx.failure(key, case, expected="live-object count of the reference model, no sanitizer report", observed=note, note=note)
+    # (3) caller-owned pointer results held in capsule variables (free() and free_pattern release)
+    hs = smallgen.sample(own_history(12 if quick else 30), ctx.seed + 5, 160 if quick else 3000)
+    chunks = [hs[i::core.NCPU] for i in range(core.NCPU)]
+    for out in core.pool_map(_own_job, [c for c in chunks if c]):
+        ctx.case(n=out["n"], label="history:owned-pointer")
+        for nt in out["nontrivial"]:
+            ctx.case(n=0, nontrivial=nt)
+        if out["sample"]:
+            ctx.case(n=0, sample=out["sample"])
+        for key, case, note in out["problems"]:
+            ctx.failure(key, case, expected="each buffer released exactly once, none early, no sanitizer report", observed=note, note=note)
     # (2) sanitised call plans
     callcheck.run_engine(ctx, "fortran", [None, {"F_CFI": True}], 6 if quick else 60, ["c++", "c"], asan=True)
     callcheck.run_engine(ctx, "c", [None], 6 if quick else 60, ["c++"], asan=True)
@@ -209,6 +311,12 @@ def replay(ctx, rec):
         res = _up_job(c["upstream"])
         if res["stage"] != "ok":
             ctx.failure(rec["key"], c, observed=res["detail"], note=res["detail"][:800])
+        return
+    if "own_ops" in c:
+        ops = [tuple(o) for o in (c["own_ops"] or [])]
+        out = _own_job([ops] if ops else [[(1, 1)]])
+        for key, case, note in out["problems"]:
+            ctx.failure(key, c, observed=note, note=note)
         return
     if c.get("ops") is None and "options" in c:
         callcheck.replay_case(ctx, rec)
